@@ -285,6 +285,30 @@ def materialise (ev : Env → ε → JVal) (env : Env) (template forced : Fields
   let t := deepOverlay template forced
   if steps.isEmpty then t else deepOverlay (overlaysLoop ev env steps t) forced
 
+/-- The skip decision with its failure mode: `none` = the `skipIf` did not evaluate to a boolean
+    (`evaluate` returned a PermFail, or `case _ as bad_type`) — the reconcile ends with that PermFail
+    and **no** target.  A failed evaluation is represented by the oracle answering a non-boolean. -/
+def skipDecision (ev : Env → ε → JVal) (env : Env) (s : Step ε) : Option Bool :=
+  match s.skipIf with
+  | some e => (match ev env e with | .bool b => some b | _ => none)
+  | none => some false
+
+/-- the loop of `_materialize_from_overlays` with the PermFail exit of an undecidable `skipIf` -/
+def overlaysLoopE (ev : Env → ε → JVal) (env : Env) : List (Step ε) → Fields → Option Fields
+  | [], cur => some cur
+  | s :: rest, cur =>
+    match skipDecision ev env s with
+    | none => none
+    | some true => overlaysLoopE ev env rest cur
+    | some false => overlaysLoopE ev env rest (stepApply ev env cur s)
+
+/-- `expected_resource`, or `none` when some `skipIf` is not a boolean (no target is materialised) -/
+def materialiseE (ev : Env → ε → JVal) (env : Env) (template forced : Fields)
+    (steps : List (Step ε)) : Option Fields :=
+  let t := deepOverlay template forced
+  if steps.isEmpty then some t
+  else (overlaysLoopE ev env steps t).map (fun r => deepOverlay r forced)
+
 /-- `_create_api_resource` up to the second forced overlay: the optional `create.overlay` over the
     target, then the forced overlay (owner references / directive stripping / annotation: C08) -/
 def createView (ev : Env → ε → JVal) (env : Env) (target forced : Fields)
@@ -309,12 +333,34 @@ def lookupPath : JVal → List String → JVal
   | .obj kvs, k :: rest => lookupPath ((JVal.lookup k kvs).getD .null) rest
   | _, _ :: _ => .null
 
+/-- koreo's `flatten()`: the members of the nested lists, in order -/
+def flattenL : List JVal → List JVal
+  | [] => []
+  | .arr ys :: rest => ys ++ flattenL rest
+  | _ :: rest => flattenL rest
+
+/-- one expression of the generators' language against the activation:
+    `a.b.c` (path) | `<path>.flatten()` | `<path>.overlay(<path>)` (koreo's `overlay()` = `_deep_overlay`) -/
+def evalExpr (env : Env) (e : String) : JVal :=
+  let path (p : String) : JVal := lookupPath (.obj env) (p.splitOn ".")
+  if e.endsWith ".flatten()" then
+    match path (e.dropEnd 10).toString with
+    | .arr xs => .arr (flattenL xs)
+    | _ => .null
+  else
+    match e.splitOn ".overlay(" with
+    | [l, r] =>
+      (match path l, path (r.dropEnd 1).toString with
+       | .obj a, .obj b => .obj (dovO a b)
+       | _, _ => .null)
+    | _ => path e
+
 mutual
-/-- a written value: `"=a.b.c"` is the path `a.b.c` into the activation; lists and maps are
+/-- a written value: `"=<expr>"` is an expression over the activation; lists and maps are
     evaluated element-wise; everything else is itself -/
 def evalWritten (env : Env) : JVal → JVal
   | .str s =>
-    if s.startsWith "=" then lookupPath (.obj env) ((s.dropWhile (· == '=')).toString.splitOn ".") else .str s
+    if s.startsWith "=" then evalExpr env (s.dropWhile (· == '=')).toString else .str s
   | .arr xs => .arr (evalWrittenL env xs)
   | .obj kvs => .obj (evalWrittenO env kvs)
   | v => v
